@@ -765,6 +765,15 @@ impl Aspa {
             hlen(r.fixed.header) == wire_aspa(r).len(),
     //@/spec
     //@end
+    // accessors of the PDU (the flags byte is the upper octet of the reused session field)
+    //@fn src/rtr/pdu.rs :: impl Aspa :: flags
+    //@spec
+        ensures r as int == be16(mem16(self.fixed.header.session)) / 256,
+    //@/spec
+    //@ghost begin
+        proof { assert(forall|x: u16| #![auto] (x >> 8u16) == x / 256u16) by (bit_vector); }
+    //@/ghost
+    //@end
     //@fn src/rtr/pdu.rs :: impl Aspa :: write
     //@sigsub R6 "<A: AsyncWrite + Unpin>" ""
     //@sigsub R6 "a: &mut A" "a: &mut Sink"
